@@ -152,14 +152,22 @@ def split_groups(row):
     return {"toCC": toCC, "toProd": toProd, "pshut": pshut, "toPC": toPC, "toCons": toCons, "cshut": cshut, "P": p, "C": c}
 
 
-def make_plans(ctx, prefix, mix, n_cases, steps_lo, steps_hi, windows):
-    """mix: list of (mode, weight)"""
+def make_plans(ctx, prefix, mix, n_cases, steps_lo, steps_hi, windows, n_chunked=0, n_durable=0):
+    """mix: list of (mode, weight); the last n_chunked plans run a chunked flow (oracle only, see run_rd_check)"""
     rng = ctx.rng
     plans = []
     modes = [m for m, w in mix for _ in range(w)]
     for k in range(n_cases):
         plans.append({"id": "%s%d" % (prefix, k), "mode": rng.choice(modes), "window": rng.choice(windows),
                       "notify": rng.random() < 0.7, "steps": rng.randint(steps_lo, steps_hi),
+                      "seed": rng.randrange(1, 2 ** 62)})
+    for k in range(n_chunked):
+        plans.append({"id": "%sk%d" % (prefix, k), "mode": rng.choice(["smooth", "lossy", "lossy", "slowcons"]), "window": rng.choice([4, 5, 8]),
+                      "notify": True, "chunk": rng.choice([40, 64]), "steps": rng.randint(steps_lo, steps_hi),
+                      "seed": rng.randrange(1, 2 ** 62)})
+    for k in range(n_durable):
+        plans.append({"id": "%sd%d" % (prefix, k), "mode": rng.choice(["smooth", "lossy", "lossy", "slowcons"]), "window": rng.choice([2, 3, 5, 8]),
+                      "notify": True, "durable": True, "steps": rng.randint(steps_lo, steps_hi),
                       "seed": rng.randrange(1, 2 ** 62)})
     return plans
 
@@ -180,51 +188,56 @@ def is_legit(o):
 # ------------------------------------------------------------------ independent oracles on the implementation runs
 def oracle_c42(c):
     """Ordered, gap-free, re-presented only while unconfirmed, chain, confirmations once, liveness after a fair tail.
-    Uses only the traffic the real controllers produced (plus the watermarks for the chain clause).
+    Uses only the traffic the real controllers produced (plus the watermarks for the chain clause). Works for chunked
+    flows too: a message is identified by the (message, last sequence) pair of its Stored reply, production order is the
+    order of first Stored replies.
     returns list of (signature, what, step)"""
     bad = []
-    stored = {}          # seq -> message number, from the Stored replies to the producer endpoint
-    last = None          # last Delivery told (mid, seq)
-    confirmed_upto = 0   # highest seq the consumer endpoint effectively confirmed
-    next_notice = 1
+    order = []           # produced messages in production order: (message number, sequence carried by Stored)
+    index = {}
+    last = None          # index in order of the last Delivery told
+    confirmed_upto = -1  # index of the last message the consumer endpoint effectively confirmed
+    next_notice = 0
+    chunked = c.get("chunk", 0) > 0
     for k in range(len(c["obs"])):
         g = split_groups(c["obs"][k])
         op = c["ops"][k - 1] if k > 0 else None
         if op is not None and op["op"] == "Confirmed" and last is not None:
-            if op.get("s", 0) == 1 and (op.get("m", 0), op.get("q", 0)) == last and last[1] > confirmed_upto:
-                confirmed_upto = last[1]
+            if op.get("s", 0) == 1 and (op.get("m", 0), op.get("q", 0)) == order[last] and last > confirmed_upto:
+                confirmed_upto = last
         for m in g["toProd"]:
             if m[0] == 4:
                 _, s_, t_, mid, q = m
-                if q in stored and stored[q] != mid:
-                    bad.append(("store:seq-reassigned", "seq %d stored for message %d and later for %d" % (q, stored[q], mid), k))
-                if q not in stored and q != len(stored) + 1:
-                    bad.append(("store:seq-gap", "stored seq %d after %d stored messages" % (q, len(stored)), k))
-                stored.setdefault(q, mid)
+                if (mid, q) not in index:
+                    prev_q = order[-1][1] if order else 0
+                    if any(q == q0 for (_, q0) in order):
+                        bad.append(("store:seq-reassigned", "seq %d stored for two different messages" % q, k))
+                    if (not chunked and q != prev_q + 1) or (chunked and q <= prev_q):
+                        bad.append(("store:seq-gap", "stored seq %d after seq %d" % (q, prev_q), k))
+                    index[(mid, q)] = len(order)
+                    order.append((mid, q))
             if m[0] == 5:
                 _, s_, mid, q = m
-                if q != next_notice:
-                    bad.append(("confirm:not-exactly-once-in-order", "DeliveryConfirmed seq %d, expected %d" % (q, next_notice), k))
-                if q > confirmed_upto:
-                    bad.append(("confirm:before-consumer-confirmed", "DeliveryConfirmed seq %d but consumer confirmed up to %d" % (q, confirmed_upto), k))
-                if stored.get(q) != mid:
-                    bad.append(("confirm:wrong-message", "DeliveryConfirmed seq %d names message %d, stored %s" % (q, mid, stored.get(q)), k))
-                next_notice = max(next_notice, q + 1)
+                if next_notice >= len(order) or order[next_notice] != (mid, q):
+                    bad.append(("confirm:not-exactly-once-in-order", "DeliveryConfirmed (message %d, seq %d), expected %s" %
+                                (mid, q, order[next_notice] if next_notice < len(order) else "none"), k))
+                elif next_notice > confirmed_upto:
+                    bad.append(("confirm:before-consumer-confirmed", "DeliveryConfirmed seq %d before the consumer confirmed it" % q, k))
+                next_notice += 1
         for d in g["toCons"]:
             _, s_, mid, q = d
-            prev = last[1] if last else 0
-            if q == prev + 1:
+            i = index.get((mid, q))
+            if i is None:
+                bad.append(("delivery:not-production-order", "Delivery (message %d, seq %d) is not a stored message; stored so far %s" % (mid, q, order[-4:]), k))
+                continue
+            prev = last if last is not None else -1
+            if i == prev + 1 or (i == prev and last is not None):
                 pass
-            elif q == prev and last is not None:
-                if mid != last[0]:
-                    bad.append(("delivery:changed-message", "seq %d re-presented with message %d, was %d" % (q, mid, last[0]), k))
             else:
-                bad.append(("delivery:gap-or-reorder", "Delivery seq %d after seq %d" % (q, prev), k))
-            if q <= confirmed_upto:
-                bad.append(("delivery:re-presented-after-confirmation", "Delivery seq %d although the consumer confirmed up to %d" % (q, confirmed_upto), k))
-            if stored.get(q) != mid:
-                bad.append(("delivery:not-production-order", "Delivery seq %d carries message %d, the producer stored %s there" % (q, mid, stored.get(q)), k))
-            last = (mid, q)
+                bad.append(("delivery:gap-or-reorder", "Delivery of produced message #%d (seq %d) after #%d" % (i + 1, q, prev + 1), k))
+            if i <= confirmed_upto:
+                bad.append(("delivery:re-presented-after-confirmation", "Delivery seq %d although the consumer already confirmed it" % q, k))
+            last = i
         P, C = g["P"], g["C"]
         if not (P["conf"] <= C["conf"] <= P["cur"]):
             bad.append(("chain:confirmed<=delivered<=stored", "producer confirmed %d, consumer confirmed %d, stored %d" % (P["conf"], C["conf"], P["cur"]), k))
@@ -233,11 +246,30 @@ def oracle_c42(c):
         if bad:
             break
     if not bad:
+        if c.get("failed") and c.get("mode") in ("smooth", "lossy", "slowcons"):
+            g = split_groups(c["obs"][-1])
+            bad.append(("liveness:flow-terminated-under-legitimate-faults",
+                        "a controller published a terminal failure although both endpoints kept the contract and the network only lost/duplicated/reordered (producer failed=%d, consumer failed=%d)" % (g["P"]["failed"], g["C"]["failed"]),
+                        len(c["obs"]) - 1))
+        if c.get("durable") and not c.get("failed"):
+            g = split_groups(c["obs"][-1])
+            if c.get("queue_seq") != g["P"]["cur"] or c.get("queue_confirmed", 0) > g["P"]["conf"]:
+                bad.append(("durable:queue-and-controller-diverge", "queue stored %s / confirmed %s, controller stored %d / confirmed %d" %
+                            (c.get("queue_seq"), c.get("queue_confirmed"), g["P"]["cur"], g["P"]["conf"]), len(c["obs"]) - 1))
+            if c.get("drained") == 1 and c.get("queue_confirmed") != g["P"]["conf"]:
+                bad.append(("durable:confirmation-not-persisted", "after the fair tail the queue persisted confirmation %s, the controller confirmed %d" %
+                            (c.get("queue_confirmed"), g["P"]["conf"]), len(c["obs"]) - 1))
+        if c.get("drained") == 1:
+            g = split_groups(c["obs"][-1])
+            if g["P"]["hs"] not in (0, 1):
+                bad.append(("liveness:handshake-stuck", "after the fair tail the producer handshake is still in phase %d for message %d: a message handed over by the producer endpoint was never stored/accepted" %
+                            (g["P"]["hs"], g["P"]["pmid"]), len(c["obs"]) - 1))
         if c.get("payload_bad", 0):
             bad.append(("delivery:payload-corrupted", "%d deliveries carried a payload that is not the produced one" % c["payload_bad"], len(c["obs"]) - 1))
         if c.get("drained") == 0:
             g = split_groups(c["obs"][-1])
-            bad.append(("liveness:not-confirmed-after-fair-tail", "after a loss-free fair tail (14 timer rounds) producer confirmed %d of %d stored" % (g["P"]["conf"], g["P"]["cur"]), len(c["obs"]) - 1))
+            bad.append(("liveness:not-confirmed-after-fair-tail", "after a loss-free fair tail (14 timer rounds%s) producer confirmed %d of %d stored" %
+                        (", cut at the step budget: traffic never became quiescent" if c.get("runaway") else "", g["P"]["conf"], g["P"]["cur"]), len(c["obs"]) - 1))
     return bad
 
 
@@ -310,7 +342,7 @@ def run_rd_check(ctx, pid, test_name, files, mix, oracle, theorems, quick_n, tho
         "identifier numbering: real uuids are numbered by first appearance (the model's counters issue them in that order)"]
     ctx.assumptions += [
         "no controller restart (one incarnation of each controller, one session) — as in the property statement",
-        "volatile flow (no durable queue) and whole-payload messages (chunking disabled); durable queue lane and chunk assembly are a stated second layer, not modelled",
+        "the Coq model and the theorems cover the volatile, whole-payload core; chunked flows (split/assembly) and the durable-queue lane (asynchronous store/accept/confirm with delayed results, in-memory contract-conforming queue) are a second layer: the real controllers run them under the same fault schedules and the property oracle checks them, but they are not modelled in Coq",
         "sequence numbers stay below 2^63-1 (the controller's own exhaustion guard is modelled; Z arithmetic otherwise unbounded)",
         "controller traffic faults = loss, duplication, reordering, delay of messages actually sent (no forgery); endpoint messages arbitrary"]
     low = pid.lower()
@@ -324,7 +356,8 @@ def run_rd_check(ctx, pid, test_name, files, mix, oracle, theorems, quick_n, tho
             cc["id"] = "%sc%d" % (low, k)
             plans.append(cc)
         n = thorough_n if ctx.thorough else quick_n
-        plans += make_plans(ctx, low + "g", mix, n, 120, 420 if ctx.thorough else 300, [1, 2, 2, 3, 3, 4, 5, 8, 16])
+        plans += make_plans(ctx, low + "g", mix, n, 120, 420 if ctx.thorough else 300, [1, 2, 2, 3, 3, 4, 5, 8, 16],
+                            n_chunked=(60 if ctx.thorough else 8), n_durable=(60 if ctx.thorough else 8))
     pin, pout = os.path.join(ctx.work, low + "_plans.jsonl"), os.path.join(ctx.work, low + "_cases.jsonl")
     with open(pin, "w") as f:
         for p in plans:
@@ -344,7 +377,7 @@ def run_rd_check(ctx, pid, test_name, files, mix, oracle, theorems, quick_n, tho
 
     def replay_of(c, upto):
         p = dict(plan_by_id.get(c["id"], {}))
-        p.update({"id": c["id"] + "r", "mode": c["mode"], "window": c["window"], "notify": c["notify"], "ops": c["ops"][:upto]})
+        p.update({"id": c["id"] + "r", "mode": c["mode"], "window": c["window"], "notify": c["notify"], "chunk": c.get("chunk", 0), "ops": c["ops"][:upto]})
         return {"plan": p, "how": "ops are executed verbatim on the real controllers: DeliverPC/DeliverCC i = deliver the i-th message ever sent in that direction; Tick*; Produced/StoredAck/Confirmed = endpoint messages",
                 "test": test_name}
 
@@ -358,16 +391,20 @@ def run_rd_check(ctx, pid, test_name, files, mix, oracle, theorems, quick_n, tho
                 ctx.violation(sig, "%s (case %s, mode %s, window %d, step %d of %d)" % (what, c["id"], c["mode"], c["window"], step, len(c["ops"])),
                               replay_of(c, step))
             n_viol += 1
-        if c.get("chunked_seen"):
+        if c.get("chunked_seen") and not c.get("chunk"):
             ctx.tie_broken("chunked traffic on a flow with chunking disabled", {"case": c["id"]})
 
     # ---- model vs implementation: the Coq model evaluated on the same schedules
     ok_model, mo = ctx.coq_build(["theories/C42/Tie.vo"])
     mism = None
+    all_cases = None
     if not ok_model:
         ctx.tie_broken("C42/Model.v does not compile", mo)
     elif cases:
         t0 = time.time()
+        all_cases = cases
+        # the model covers volatile whole-payload flows; chunked flows and the durable-queue lane: oracle only
+        cases = [c for c in all_cases if not c.get("chunk") and not c.get("durable")]
         rc2, o2 = ctx.coq_eval("cases_" + pid, cases_v(cases))
         res = parse_summary(o2)
         ctx.log("coq model evaluated on %d cases in %.1fs" % (len(cases), time.time() - t0))
@@ -384,6 +421,9 @@ def run_rd_check(ctx, pid, test_name, files, mix, oracle, theorems, quick_n, tho
                                 "model_obs": mobs, "impl_obs": iobs,
                                 "model": split_groups(mobs) if mobs else None, "impl": split_groups(iobs) if iobs else None,
                                 "mismatching_cases": res[1], "replay": replay_of(c, step)})
+
+    if ok_model and all_cases is not None:
+        cases = all_cases
 
     # ---- theorems
     ctx.log("building the Coq closure of Properties/%s.v" % pid)
@@ -417,6 +457,8 @@ def run_rd_check(ctx, pid, test_name, files, mix, oracle, theorems, quick_n, tho
         "rule": "one evaluation = one step of a real controller's Receive compared with the Coq model (outgoing traffic per recipient + 30 state fields); "
                 "a case is non-trivial when the consumer confirmed >= 3 messages and the schedule contains >= 3 faults (duplicate / out-of-order / never delivered); distinct by (window, notify, ops)",
         "cases": len(cases), "modes": modes, "op_histogram": hist, "faults": agg, "max_seq_reached": maxseq,
+        "chunked_flow_cases_oracle_only": sum(1 for c in cases if c.get("chunk")),
+        "durable_queue_cases_oracle_only": sum(1 for c in cases if c.get("durable")),
         "failed_flows": sum(1 for c in cases if c.get("failed")), "fair_tails_checked": sum(1 for c in cases if c.get("drained", -1) >= 0),
         "model_mismatching_cases": mism,
         "samples": [{"id": c["id"], "mode": c["mode"], "window": c["window"], "ops": c["ops"][:12], "last_obs": c["obs"][-1]} for c in cases[:2]],
